@@ -218,6 +218,8 @@ theorem applyRes_termOk (cfg : Cfg) (pol : Policy) (step : Nat) (tickEv : Ev) (d
   | addCollected buf ev =>
     simp only [applyRes]
     split
+    · exact h
+    split
     · apply termOk_append _ _ h
       simp [termOk, Cmd.isExit]
     · exact h
